@@ -242,6 +242,7 @@ def run(ctx):
     ctx.cov["object_graphs_compared_with_model"] = total
     typed_variants(ctx)
     stored_states(ctx)
+    subclass_roundtrip(ctx)
     # ---- cross-loading in a pure-Python child
     env = dict(os.environ, PURE_PYTHON="1")
     proc = subprocess.run([sys.executable, os.path.join(os.path.dirname(os.path.dirname(os.path.abspath(__file__))), "c06_child.py")],
@@ -324,6 +325,11 @@ def typed_variants(ctx):
                     if not setlike:
                         t.update({keys[1]: vals[0]})
                         t.setdefault(keys[2], vals[1])
+                        if f.vk == "O":
+                            # an equal value of ANOTHER type replaces the stored object in both implementations
+                            t[keys[0]] = 1; t[keys[0]] = True
+                            t[keys[3]] = 2; t[keys[3]] = 2.0
+                            t[keys[2]] = [1, 2]; t[keys[2]] = (1, 2)
                     st = typed_repr(t.__getstate__())
                     dumps = [pickle.dumps(t, p) for p in (0, 2, 5)]
                     back = typed_repr(pickle.loads(dumps[1]).__getstate__())
@@ -342,6 +348,56 @@ def typed_variants(ctx):
                                        fn, kind, keys, vals, objs["C"][0], objs["Py"][0], objs["C"][1] == objs["Py"][1]),
                                    {"family": fn, "kind": kind, "keys": [repr(k) for k in keys], "values": [repr(v) for v in vals]})
     ctx.cov["typed_variant_containers"] = n
+
+
+def subclass_roundtrip(ctx):
+    """subclasses (own node sizes, own leaf class through _bucket_type) round-trip like the base classes"""
+    import sys as _sys
+    from harness.families import fam
+    me = _sys.modules[__name__]
+    n = 0
+    for fn in ("OO", "II", "LF", "OI", "fs", "QQ"):
+        f = fam(fn)
+        for impl in ("C", "Py"):
+            for kind, leafkind in (("BTree", "Bucket"), ("TreeSet", "Set")):
+                T, B = f.cls(kind, impl), f.cls(leafkind, impl)
+                bname, tname = "Sub%s%s%s" % (fn, leafkind, impl), "Sub%s%s%s" % (fn, kind, impl)
+                SubB = type(bname, (B,), {"__module__": __name__})
+                SubT = type(tname, (T,), {"__module__": __name__, "_bucket_type": SubB, "max_leaf_size": 2, "max_internal_size": 3})
+                setattr(me, bname, SubB); setattr(me, tname, SubT)
+                env = TreeEnv(fn, kind, impl, "int" if fn[0] == "O" else None)
+                t = SubT()
+                for k in range(12):
+                    t.add(env.k(k)) if env.setlike else t.__setitem__(env.k(k), env.v(k % 4))
+                want = list(t) if env.setlike else list(t.items())
+                copies = {}
+                try:
+                    t2 = SubT(); t2.__setstate__(t.__getstate__()); copies["setstate(getstate)"] = t2
+                    for proto in (0, 2, 5):
+                        copies["pickle-%d" % proto] = pickle.loads(pickle.dumps(t, proto))
+                    copies["deepcopy"] = copy.deepcopy(t)
+                    copies["copy"] = copy.copy(t)
+                    bad = None
+                    for how, o in copies.items():
+                        got = list(o) if env.setlike else list(o.items())
+                        if type(o) is not SubT:
+                            bad = "%s: the copy is a %s" % (how, type(o).__name__)
+                        elif got != want:
+                            bad = "%s: contents differ" % how
+                        elif how != "copy" and type(o._firstbucket) is not SubB:
+                            bad = "%s: leaves are %s" % (how, type(o._firstbucket).__name__)
+                        else:
+                            o._check()
+                except AssertionError as e:
+                    bad = "%s: unsound: %s" % (how, str(e)[:60])
+                except Exception as e:  # noqa
+                    bad = "raises %s: %s" % (type(e).__name__, str(e)[:80])
+                n += 1
+                ctx.count(("subclass", fn, impl, kind))
+                if bad:
+                    ctx.oracle_failure("%s:subclass-with-own-leaf-class:%s" % (impl, kind), "%s%s/%s subclass (_bucket_type = a %s subclass, sizes 2/3, 12 entries): %s" % (fn, kind, impl, leafkind, bad),
+                                       {"family": fn, "kind": kind, "impl": impl})
+    ctx.cov["subclass_roundtrips"] = n
 
 
 class sizes_of:
